@@ -42,6 +42,529 @@ ALLOWED_HOOKS = {("Processor", "__deepcopy__"), ("ModelGroup", "__deepcopy__"), 
 SCAN_DIRS = ["pyxel/pipelines", "pyxel/detectors", "pyxel/data_structure", "pyxel/exposure", "pyxel/observation"]
 
 
+# ------------------------------------------------------------------ general normalisations (behaviour-preserving rewrites)
+#
+# Every function the tables are read from first goes through `normalise`:
+#   (1) `x = [elt for t in it if c]` / `return [...]` / `list(<genexp>)`  ->  the explicit loop with `.append`
+#   (2) calls to helper functions / methods of the same module or class (or imported from a pyxel module) are INLINED:
+#       parameters are substituted by the argument expressions (or bound to fresh names), the helper's locals get fresh
+#       names, `return e` becomes an assignment to the call's target (guard clauses / early returns become nested
+#       if/else), a helper called in tail position keeps its returns.  Functions that are themselves rows of the tables
+#       (copy sites, run sites) and the copiers are never inlined.
+#   (3) single-assignment local aliases of a path (`p = processor`, `det = new.detector`, `r = <helper result>`) are
+#       substituted - never when the root of the path is re-bound in the function (an alias taken before a reassignment
+#       is NOT the same object; such code keeps its names and is judged by the taint analysis).
+# What is not recognised is left as it is (the analyses below then fail closed where they must).
+
+import copy as _copy
+
+NO_INLINE = {"deepcopy", "copy", "create_new_processor", "build_processors", "replace", "update_processor", "run_pipeline",
+             "_run_single_pipeline", "_run_pipelines_array_to_datatree", "_run_pipelines_tuple_to_array",
+             "run_pipelines_with_dask", "_apply_parameters", "fitness", "run_pipelines", "set", "get", "has",
+             "__deepcopy__", "__init__", "set_random_seed", "run_calibration"}
+MAX_INLINE_DEPTH = 4
+MAX_INLINE_STMTS = 60
+
+
+def _simple_path(e) -> bool:
+    while isinstance(e, ast.Attribute):
+        e = e.value
+    return isinstance(e, ast.Name)
+
+
+def _stmt_lists(node):
+    """Every statement list below node (not descending into nested function / class definitions)."""
+    for field in ("body", "orelse", "finalbody"):
+        lst = getattr(node, field, None)
+        if isinstance(lst, list) and lst and isinstance(lst[0], ast.stmt):
+            yield lst
+            for st in lst:
+                if not isinstance(st, (ast.FunctionDef, ast.AsyncFunctionDef, ast.ClassDef)):
+                    yield from _stmt_lists(st)
+    for h in getattr(node, "handlers", []) or []:
+        yield from _stmt_lists(h)
+    for c in getattr(node, "cases", []) or []:
+        yield from _stmt_lists(c)
+
+
+def _binding_counts(fn) -> dict:
+    cnt: dict = {}
+    a = fn.args
+    for x in a.posonlyargs + a.args + a.kwonlyargs + ([a.vararg] if a.vararg else []) + ([a.kwarg] if a.kwarg else []):
+        cnt[x.arg] = cnt.get(x.arg, 0) + 1
+    for names, _ in _bindings(fn):
+        for n in names:
+            cnt[n] = cnt.get(n, 0) + 1
+    for node in ast.walk(fn):
+        if isinstance(node, ast.ExceptHandler) and node.name:
+            cnt[node.name] = cnt.get(node.name, 0) + 1
+        elif isinstance(node, (ast.Import, ast.ImportFrom)):
+            for al in node.names:
+                n = (al.asname or al.name).split(".")[0]
+                cnt[n] = cnt.get(n, 0) + 1
+        elif isinstance(node, (ast.FunctionDef, ast.AsyncFunctionDef, ast.ClassDef)) and node is not fn:
+            cnt[node.name] = cnt.get(node.name, 0) + 1
+        elif isinstance(node, (ast.Global, ast.Nonlocal)):
+            for n in node.names:
+                cnt[n] = cnt.get(n, 0) + 2
+        elif isinstance(node, ast.Delete):
+            for t in node.targets:
+                for n in _target_names(t):
+                    cnt[n] = cnt.get(n, 0) + 2
+        elif isinstance(node, (ast.MatchAs, ast.MatchStar)) and node.name:
+            cnt[node.name] = cnt.get(node.name, 0) + 1
+    return cnt
+
+
+class _Subst(ast.NodeTransformer):
+    """Replace loads of the names in `m` by (copies of) the mapped expressions; stores are renamed when mapped to a Name."""
+
+    def __init__(self, m):
+        self.m = m
+
+    def visit_Name(self, node):
+        if node.id in self.m:
+            new = self.m[node.id]
+            if isinstance(node.ctx, ast.Load):
+                return ast.copy_location(_copy.deepcopy(new), node)
+            if isinstance(new, ast.Name):
+                return ast.copy_location(ast.Name(id=new.id, ctx=node.ctx), node)
+        return node
+
+    def visit_ExceptHandler(self, node):
+        self.generic_visit(node)
+        if node.name in self.m and isinstance(self.m[node.name], ast.Name):
+            node.name = self.m[node.name].id
+        return node
+
+
+def _comp_to_loop(target: str, comp, fresh_decl) -> list | None:
+    """`target = [elt for t in it if c]` -> [target = [], for t in it: if c: target.append(elt)]"""
+    if isinstance(comp, ast.Call) and ast.unparse(comp.func) in ("list", "tuple") and len(comp.args) == 1 \
+            and not comp.keywords and isinstance(comp.args[0], ast.GeneratorExp):
+        comp = comp.args[0]
+    elif not isinstance(comp, ast.ListComp):
+        return None
+    if len(comp.generators) != 1 or comp.generators[0].is_async:
+        return None
+    g = comp.generators[0]
+    inner: list = [ast.Expr(ast.Call(func=ast.Attribute(value=ast.Name(id=target, ctx=ast.Load()), attr="append",
+                                                        ctx=ast.Load()), args=[comp.elt], keywords=[]))]
+    for c in reversed(g.ifs):
+        inner = [ast.If(test=c, body=inner, orelse=[])]
+    return [fresh_decl, ast.For(target=g.target, iter=g.iter, body=inner, orelse=[], type_comment=None)]
+
+
+def comps_to_loops(fn):
+    k = [0]
+    for lst in list(_stmt_lists(fn)):
+        i = 0
+        while i < len(lst):
+            st = lst[i]
+            rep = None
+            if isinstance(st, ast.Assign) and len(st.targets) == 1 and isinstance(st.targets[0], ast.Name):
+                rep = _comp_to_loop(st.targets[0].id, st.value,
+                                    ast.Assign(targets=[st.targets[0]], value=ast.List(elts=[], ctx=ast.Load())))
+            elif isinstance(st, ast.AnnAssign) and st.value is not None and isinstance(st.target, ast.Name):
+                rep = _comp_to_loop(st.target.id, st.value,
+                                    ast.AnnAssign(target=st.target, annotation=st.annotation,
+                                                  value=ast.List(elts=[], ctx=ast.Load()), simple=1))
+            elif isinstance(st, ast.Return) and st.value is not None:
+                k[0] += 1
+                name = f"_ret{k[0]}"
+                rep = _comp_to_loop(name, st.value, ast.Assign(targets=[ast.Name(id=name, ctx=ast.Store())],
+                                                               value=ast.List(elts=[], ctx=ast.Load())))
+                if rep is not None:
+                    rep.append(ast.Return(value=ast.Name(id=name, ctx=ast.Load())))
+            if rep is not None:
+                for r in rep:
+                    ast.copy_location(r, st)
+                    ast.fix_missing_locations(r)
+                lst[i:i + 1] = rep
+                i += len(rep)
+            else:
+                i += 1
+    return fn
+
+
+def ifexp_to_if(fn):
+    """`x = a if c else b` -> `if c: x = a` / `else: x = b`; the same for `return a if c else b` (also nested)."""
+    for _ in range(4):
+        changed = False
+        for lst in list(_stmt_lists(fn)):
+            for i, st in enumerate(lst):
+                if isinstance(st, (ast.Assign, ast.AnnAssign, ast.Return)) and isinstance(st.value, ast.IfExp):
+                    a, b = _copy.deepcopy(st), _copy.deepcopy(st)
+                    a.value, b.value = st.value.body, st.value.orelse
+                    lst[i] = ast.copy_location(ast.If(test=st.value.test, body=[a], orelse=[b]), st)
+                    changed = True
+        if not changed:
+            break
+    return fn
+
+
+def _ends(stmts) -> bool:
+    """Does the statement list always leave the function (return / raise) at its end?"""
+    if not stmts:
+        return False
+    last = stmts[-1]
+    if isinstance(last, (ast.Return, ast.Raise)):
+        return True
+    if isinstance(last, ast.If):
+        return _ends(last.body) and _ends(last.orelse)
+    return False
+
+
+def _has_return(node) -> bool:
+    for n in ast.walk(node):
+        if isinstance(n, ast.Return):
+            return True
+    return False
+
+
+def _returns_to_assign(stmts, target: str | None):
+    """Statement list with every `return e` replaced by `target = e` (guard clauses become if/else); None when a return
+    sits inside a loop / try / with / match (not restructured)."""
+    out = []
+    for i, st in enumerate(stmts):
+        if isinstance(st, ast.Return):
+            if st.value is not None and target is not None:
+                out.append(ast.copy_location(ast.Assign(targets=[ast.Name(id=target, ctx=ast.Store())], value=st.value), st))
+            elif st.value is not None:
+                out.append(ast.copy_location(ast.Expr(value=st.value), st))
+            return out
+        if isinstance(st, (ast.FunctionDef, ast.AsyncFunctionDef, ast.ClassDef)) or not _has_return(st):
+            out.append(st)
+            continue
+        if not isinstance(st, ast.If):
+            return None
+        rest = stmts[i + 1:]
+        b_ends, o_ends = _ends(st.body), _ends(st.orelse)
+        if (b_ends and o_ends) or not rest:
+            body, orelse = _returns_to_assign(st.body, target), _returns_to_assign(st.orelse, target)
+        elif b_ends:                          # guard clause: `if c: return x` + rest  ==  if c: x else: rest
+            body, orelse = _returns_to_assign(st.body, target), _returns_to_assign(st.orelse + rest, target)
+        elif o_ends:
+            body, orelse = _returns_to_assign(st.body + rest, target), _returns_to_assign(st.orelse, target)
+        else:
+            return None                       # a return below a branch that may also fall through to the rest
+        if body is None or orelse is None:
+            return None
+        out.append(ast.copy_location(ast.If(test=st.test, body=body or [ast.Pass()], orelse=orelse), st))
+        return out
+    return out
+
+
+class _Resolver:
+    """Finds the definition of a helper called from `fn` (module `tree`, class `cls`, repository `repo`)."""
+
+    def __init__(self, tree, cls, repo, rel):
+        self.tree, self.cls, self.repo, self.rel = tree, cls, repo, rel
+        self._mods: dict = {}
+
+    def _module(self, dotted: str, level: int):
+        if self.repo is None:
+            return None
+        if level:
+            base = Path(self.rel).parent if self.rel else None
+            if base is None:
+                return None
+            for _ in range(level - 1):
+                base = base.parent
+            parts = list(base.parts) + (dotted.split(".") if dotted else [])
+        else:
+            parts = dotted.split(".")
+        if not parts or parts[0] != "pyxel":
+            return None
+        for cand in (Path(*parts).with_suffix(".py"), Path(*parts) / "__init__.py"):
+            key = str(cand)
+            if key not in self._mods:
+                f = Path(self.repo) / cand
+                try:
+                    self._mods[key] = ast.parse(f.read_text()) if f.exists() else None
+                except SyntaxError:
+                    self._mods[key] = None
+            if self._mods[key] is not None:
+                return self._mods[key], key
+        return None
+
+    def function(self, name: str, tree=None, rel=None, depth=0):
+        tree = self.tree if tree is None else tree
+        rel = self.rel if rel is None else rel
+        defs = [n for n in tree.body if isinstance(n, ast.FunctionDef) and n.name == name]
+        if len(defs) == 1:
+            return defs[0]
+        if defs or depth > 2:
+            return None
+        for n in tree.body:                                   # `from pyxel.x.y import name` / `from .y import name`
+            if isinstance(n, ast.ImportFrom):
+                for al in n.names:
+                    if (al.asname or al.name) == name:
+                        saved = self.rel
+                        self.rel = rel
+                        try:
+                            m = self._module(n.module or "", n.level)
+                        finally:
+                            self.rel = saved
+                        if m is None:
+                            return None
+                        return self.function(al.name, m[0], m[1], depth + 1)
+        return None
+
+    def method(self, name: str):
+        if self.cls is None:
+            return None
+        defs = [n for n in self.cls.body if isinstance(n, ast.FunctionDef) and n.name == name]
+        return defs[0] if len(defs) == 1 else None
+
+
+def _inlinable(helper) -> bool:
+    if helper.args.vararg or helper.args.kwarg:
+        return False
+    n = 0
+    for node in ast.walk(helper):
+        if isinstance(node, (ast.Yield, ast.YieldFrom, ast.Await, ast.Global, ast.Nonlocal)):
+            return False
+        if isinstance(node, ast.stmt):
+            n += 1
+    return n <= MAX_INLINE_STMTS
+
+
+def _bind_args(helper, call, bound_self):
+    """param name -> argument expression (defaults included); None when the call does not fit the signature."""
+    a = helper.args
+    pos = [x.arg for x in a.posonlyargs + a.args]
+    m: dict = {}
+    args = list(call.args)
+    if bound_self is not None:
+        args = [bound_self] + args
+    if any(isinstance(x, ast.Starred) for x in args) or any(k.arg is None for k in call.keywords):
+        return None
+    if len(args) > len(pos):
+        return None
+    for p, x in zip(pos, args):
+        m[p] = x
+    for k in call.keywords:
+        if k.arg in m or k.arg not in pos + [x.arg for x in a.kwonlyargs] or k.arg in [x.arg for x in a.posonlyargs]:
+            return None
+        m[k.arg] = k.value
+    dflt = dict(zip(pos[len(pos) - len(a.defaults):], a.defaults))
+    for x, d in zip(a.kwonlyargs, a.kw_defaults):
+        if d is not None:
+            dflt[x.arg] = d
+    for p in pos + [x.arg for x in a.kwonlyargs]:
+        if p not in m:
+            if p not in dflt:
+                return None
+            m[p] = dflt[p]
+    return m
+
+
+class _Inliner:
+    def __init__(self, fn, resolver, self_name):
+        self.fn, self.res, self.self_name = fn, resolver, self_name
+        self.k = 0
+
+    def _helper_of(self, call):
+        """(helper def, expression bound to its first parameter | None) for a call that may be inlined."""
+        f = call.func
+        if isinstance(f, ast.Name):
+            if f.id in NO_INLINE:
+                return None
+            h = self.res.function(f.id)
+            return (h, None) if h is not None and not h.decorator_list else None
+        if isinstance(f, ast.Attribute) and isinstance(f.value, ast.Name) and f.value.id == self.self_name \
+                and self.self_name is not None and f.attr not in NO_INLINE:
+            h = self.res.method(f.attr)
+            if h is None:
+                return None
+            decos = [ast.unparse(d) for d in h.decorator_list]
+            if decos == ["staticmethod"]:
+                return h, None
+            if decos:
+                return None
+            return h, ast.Name(id=self.self_name, ctx=ast.Load())
+        return None
+
+    def _expand(self, call, mode: str, target: str | None, stack):
+        """Statements replacing the call; mode 'tail' keeps the returns, 'assign' turns them into `target = e`,
+        'drop' discards the value."""
+        got = self._helper_of(call)
+        if got is None:
+            return None
+        helper, bound_self = got
+        if helper.name in stack or len(stack) >= MAX_INLINE_DEPTH or not _inlinable(helper) or helper is self.fn:
+            return None
+        m = _bind_args(helper, call, bound_self)
+        if m is None:
+            return None
+        self.k += 1
+        pre = f"_h{self.k}_"
+        h = _copy.deepcopy(helper)
+        counts = _binding_counts(h)
+        sub: dict = {}
+        prologue = []
+        for p, x in m.items():
+            if counts.get(p, 0) == 1 and (_simple_path(x) or isinstance(x, ast.Constant)):
+                sub[p] = x
+            else:
+                sub[p] = ast.Name(id=pre + p, ctx=ast.Load())
+                prologue.append(ast.Assign(targets=[ast.Name(id=pre + p, ctx=ast.Store())], value=x))
+        imported = {(al.asname or al.name).split(".")[0] for node in ast.walk(h)
+                    if isinstance(node, (ast.Import, ast.ImportFrom)) for al in node.names}
+        for n in counts:
+            if n not in sub and n not in imported:
+                sub[n] = ast.Name(id=pre + n, ctx=ast.Load())
+        body = body_no_doc(h)
+        body = [_Subst(sub).visit(st) for st in body]
+        if mode != "tail":
+            body = _returns_to_assign(body, target if mode == "assign" else None)
+            if body is None:
+                return None
+        out = prologue + body
+        for st in out:
+            ast.copy_location(st, call)
+            ast.fix_missing_locations(st)
+        # helpers called by the helper
+        wrapper = ast.Module(body=out, type_ignores=[])
+        self._process(wrapper, stack + [helper.name])
+        return wrapper.body
+
+    def _candidate_calls(self, st):
+        """Calls of a simple statement that are evaluated unconditionally, innermost first."""
+        found = []
+
+        def walk(node):
+            if isinstance(node, (ast.Lambda, ast.ListComp, ast.SetComp, ast.DictComp, ast.GeneratorExp, ast.IfExp)):
+                return
+            if isinstance(node, ast.BoolOp):
+                walk(node.values[0])
+                return
+            for c in ast.iter_child_nodes(node):
+                walk(c)
+            if isinstance(node, ast.Call):
+                found.append(node)
+
+        walk(st)
+        return found
+
+    def _process(self, root, stack):
+        for lst in list(_stmt_lists(root)):
+            i = 0
+            guard = 0
+            while i < len(lst) and guard < 200:
+                guard += 1
+                st = lst[i]
+                rep = None
+                if isinstance(st, ast.Expr) and isinstance(st.value, ast.Call):
+                    rep = self._expand(st.value, "drop", None, stack)
+                elif isinstance(st, ast.Return) and isinstance(st.value, ast.Call):
+                    rep = self._expand(st.value, "tail", None, stack)
+                elif isinstance(st, ast.Assign) and len(st.targets) == 1 and isinstance(st.targets[0], ast.Name) \
+                        and isinstance(st.value, ast.Call):
+                    rep = self._expand(st.value, "assign", st.targets[0].id, stack)
+                elif isinstance(st, ast.AnnAssign) and isinstance(st.target, ast.Name) and isinstance(st.value, ast.Call):
+                    rep = self._expand(st.value, "assign", st.target.id, stack)
+                if rep is None and isinstance(st, (ast.Expr, ast.Assign, ast.AnnAssign, ast.AugAssign, ast.Return)):
+                    # a helper call nested in the statement's expression: hoist its body, leave its result's name
+                    for call in self._candidate_calls(st):
+                        name = f"_h{self.k + 1}_result"
+                        body = self._expand(call, "assign", name, stack)
+                        if body is not None:
+                            new = ast.Name(id=name, ctx=ast.Load())
+                            for parent in ast.walk(st):
+                                for field, val in ast.iter_fields(parent):
+                                    if val is call:
+                                        setattr(parent, field, new)
+                                    elif isinstance(val, list):
+                                        for j, x in enumerate(val):
+                                            if x is call:
+                                                val[j] = new
+                            ast.fix_missing_locations(st)
+                            lst[i:i] = body
+                            i += len(body)
+                            break
+                    else:
+                        i += 1
+                    continue
+                if rep is not None:
+                    lst[i:i + 1] = rep or [ast.copy_location(ast.Pass(), st)]
+                    i += len(rep) or 1
+                else:
+                    i += 1
+
+
+def subst_aliases(fn):
+    """Substitute single-assignment local aliases of a path whose root is bound at most once."""
+    for _ in range(8):
+        counts = _binding_counts(fn)
+        found = None
+        for lst in _stmt_lists(fn):
+            for st in lst:
+                tgt = val = None
+                if isinstance(st, ast.Assign) and len(st.targets) == 1:
+                    tgt, val = st.targets[0], st.value
+                elif isinstance(st, ast.AnnAssign) and st.value is not None:
+                    tgt, val = st.target, st.value
+                if isinstance(tgt, ast.Name) and val is not None and _simple_path(val) and counts.get(tgt.id) == 1 \
+                        and counts.get(_root(val), 0) <= 1 and _root(val) != tgt.id:
+                    found = (lst, st, tgt.id, val)
+                    break
+            if found:
+                break
+        if not found:
+            break
+        lst, st, name, val = found
+        lst.remove(st)
+        if not lst:
+            lst.append(ast.copy_location(ast.Pass(), st))
+        _Subst({name: val}).visit(fn)
+    return fn
+
+
+def normalise(fn, tree, cls=None, repo=None, rel=None, loops=True):
+    fn = _copy.deepcopy(fn)
+    ifexp_to_if(fn)
+    if loops:
+        comps_to_loops(fn)
+    a = fn.args
+    first = (a.posonlyargs + a.args)[0].arg if cls is not None and (a.posonlyargs + a.args) else None
+    if any(ast.unparse(d) == "staticmethod" for d in fn.decorator_list):
+        first = None
+    _Inliner(fn, _Resolver(tree, cls, repo, rel), first)._process(fn, [fn.name])
+    ifexp_to_if(fn)
+    if loops:
+        comps_to_loops(fn)
+    subst_aliases(fn)
+    ast.fix_missing_locations(fn)
+    fn._tree = tree
+    return fn
+
+
+_SRC: dict = {"repo": None, "rels": {}}
+
+
+def nfind(tree, name: str, cls: str | None = None, loops: bool = True) -> ast.FunctionDef:
+    """find_func + normalise (the module's path and the repository come from the table filled by `parse_n`)."""
+    fn = find_func(tree, name, cls)
+    cnode = _class(tree, cls) if cls is not None else None
+    try:
+        return normalise(fn, tree, cnode, _SRC["repo"], _SRC["rels"].get(id(tree)), loops)
+    except TranslationError:
+        raise
+    except Exception:  # noqa: BLE001 - a shape the normaliser cannot digest: the analyses read the function as written
+        fn = _copy.deepcopy(fn)
+        fn._tree = tree
+        return fn
+
+
+def parse_n(repo: Path, rel: str):
+    tree = parse(repo, rel)
+    _SRC["repo"] = repo
+    _SRC["rels"][id(tree)] = rel
+    return tree
+
+
 def _is_call_to(node, names) -> bool:
     return isinstance(node, ast.Call) and ast.unparse(node.func) in names
 
@@ -56,6 +579,16 @@ def classify(expr: ast.AST, src_pred) -> tuple[str, ast.AST] | None:
         return None
     if _is_call_to(expr, {"copy", "copy.copy"}) and len(expr.args) == 1 and src_pred(expr.args[0]):
         return "Alias", expr.args[0]
+    comp = expr.args[0] if _is_call_to(expr, {"list"}) and len(expr.args) == 1 and not expr.keywords else expr
+    if isinstance(comp, (ast.ListComp, ast.GeneratorExp)) and (comp is not expr or isinstance(comp, ast.ListComp)):
+        # [deepcopy(x) for x in <src>]: a new list of deep copies of every element (no filter, no other element expression)
+        if len(comp.generators) == 1 and not comp.generators[0].ifs and isinstance(comp.generators[0].target, ast.Name) \
+                and src_pred(comp.generators[0].iter):
+            t = comp.generators[0].target.id
+            inner = classify(comp.elt, lambda e: isinstance(e, ast.Name) and e.id == t)
+            if inner is not None and inner[0] == "Deep":
+                return "Deep", comp.generators[0].iter
+        return None
     if src_pred(expr):
         return "Alias", expr
     return None
@@ -82,46 +615,107 @@ def ctor_map(init: ast.FunctionDef) -> tuple[dict, dict]:
     return m, ann
 
 
+def _worst(modes):
+    return "Alias" if "Alias" in modes else "Deep"
+
+
 def custom_copy(tree, cls: str) -> list[tuple[str, str]]:
-    fn = find_func(tree, "__deepcopy__", cls)
-    init = find_func(tree, "__init__", cls)
+    """Field modes of `cls.__deepcopy__` (after normalisation: helpers inlined, aliases substituted).  Accepted: any number
+    of `return <cls>(...)` (also `type(self)(...)` / `self.__class__(...)`, positional or keyword arguments), every one
+    giving the same fields; plain assignments to local names (possibly in if/else branches: every binding must classify, the
+    worst mode counts); conditional expressions whose branches classify (or are None); if / assert / raise / pass /
+    logging.  Anything else fails closed."""
+    fn = nfind(tree, "__deepcopy__", cls, loops=False)
+    init = nfind(tree, "__init__", cls)
     pmap, ann = ctor_map(init)
-    body = body_no_doc(fn)
-    env: dict[str, ast.AST] = {}
-    for st in body[:-1]:
-        if isinstance(st, ast.Assign) and len(st.targets) == 1 and isinstance(st.targets[0], ast.Name):
-            env[st.targets[0].id] = st.value
-        else:
-            fail(st, f"{cls}.__deepcopy__: only simple assignments before the return")
-    ret = body[-1] if body else None
-    if not (isinstance(ret, ast.Return) and isinstance(ret.value, ast.Call) and ast.unparse(ret.value.func) == cls
-            and not ret.value.args):
-        fail(ret or fn, f"{cls}.__deepcopy__ must end with `return {cls}(kw=...)`")
-    out = []
-    for kw in ret.value.keywords:
-        if kw.arg is None:
-            fail(ret, "**kwargs in the constructor call")
-        expr = kw.value
+    init_params = [a.arg for a in init.args.posonlyargs + init.args.args][1:]
+    self_name = fn.args.args[0].arg if fn.args.args else "self"
+    env: dict[str, list] = {}
+    returns = []
+
+    def scan(stmts):
+        for st in stmts:
+            if isinstance(st, ast.Assign) and all(isinstance(t, ast.Name) for t in st.targets):
+                for t in st.targets:
+                    env.setdefault(t.id, []).append(st.value)
+            elif isinstance(st, ast.AnnAssign) and isinstance(st.target, ast.Name):
+                if st.value is not None:
+                    env.setdefault(st.target.id, []).append(st.value)
+            elif isinstance(st, ast.If):
+                scan(st.body)
+                scan(st.orelse)
+            elif isinstance(st, ast.Return):
+                returns.append(st)
+            elif isinstance(st, (ast.Pass, ast.Assert, ast.Raise)):
+                pass
+            elif isinstance(st, ast.Expr) and (isinstance(st.value, ast.Constant) or (
+                    isinstance(st.value, ast.Call) and ast.unparse(st.value.func).split(".")[0] in (
+                        "logging", "log", "logger", "warnings"))):
+                pass
+            else:
+                fail(st, f"{cls}.__deepcopy__: only assignments to local names, if/else and returns of `{cls}(...)`")
+
+    scan(body_no_doc(fn))
+    is_self_attr = lambda e: isinstance(e, ast.Attribute) and isinstance(e.value, ast.Name) and e.value.id == self_name
+
+    def field_mode(expr, depth=0):
+        """[(mode, source attribute)] of every way the expression may be computed."""
+        if depth > 4:
+            fail(expr, f"{cls}.__deepcopy__: expression nested too deeply")
+        if isinstance(expr, ast.Constant) and expr.value is None:
+            return []
         if isinstance(expr, ast.Name) and expr.id in env:
-            expr = env[expr.id]
-        c = classify(expr, lambda e: self_attr(e) is not None)
+            return [x for v in env[expr.id] for x in field_mode(v, depth + 1)]
+        if isinstance(expr, ast.IfExp):
+            return field_mode(expr.body, depth + 1) + field_mode(expr.orelse, depth + 1)
+        c = classify(expr, is_self_attr)
         if c is None:
-            fail(kw.value, f"{cls}.__deepcopy__: unrecognised field expression for {kw.arg}")
-        mode, src = c
-        attr = pmap.get(kw.arg)
-        if attr is None:
-            fail(kw.value, f"{cls}.__init__ does not store parameter {kw.arg} in an attribute")
-        if self_attr(src) != attr:
-            fail(kw.value, f"{cls}.__deepcopy__: {kw.arg} is fed from self.{self_attr(src)}, stored in self.{attr}")
-        if ann.get(kw.arg) in IMMUTABLE_ANN:
-            continue  # an immutable value, not a reference to a mutable object
-        out.append((attr, mode))
-    return out
+            fail(expr, f"{cls}.__deepcopy__: unrecognised field expression")
+        return [(c[0], c[1].attr)]
+
+    if not returns:
+        fail(fn, f"{cls}.__deepcopy__ must return `{cls}(...)`")
+    per_return = []
+    for ret in returns:
+        call = ret.value
+        if not (isinstance(call, ast.Call) and ast.unparse(call.func) in (
+                cls, f"type({self_name})", f"{self_name}.__class__")):
+            fail(ret, f"{cls}.__deepcopy__ must return `{cls}(...)`")
+        if any(isinstance(a, ast.Starred) for a in call.args) or len(call.args) > len(init_params):
+            fail(ret, "*args in the constructor call")
+        kws = list(zip(init_params, call.args))
+        for kw in call.keywords:
+            if kw.arg is None:
+                fail(ret, "**kwargs in the constructor call")
+            kws.append((kw.arg, kw.value))
+        out = {}
+        for name, expr in kws:
+            ways = field_mode(expr)
+            attr = pmap.get(name)
+            if attr is None:
+                fail(expr, f"{cls}.__init__ does not store parameter {name} in an attribute")
+            for _, src in ways:
+                if src != attr:
+                    fail(expr, f"{cls}.__deepcopy__: {name} is fed from self.{src}, stored in self.{attr}")
+            if ann.get(name) in IMMUTABLE_ANN:
+                continue  # an immutable value, not a reference to a mutable object
+            if not ways:
+                fail(expr, f"{cls}.__deepcopy__: {name} is always None (the field is dropped)")
+            out[attr] = _worst([m for m, _ in ways])
+        per_return.append(out)
+    first = per_return[0]
+    for o in per_return[1:]:
+        if list(o) != list(first):
+            fail(fn, f"{cls}.__deepcopy__: the returns do not construct the same fields")
+    return [(attr, _worst([o[attr] for o in per_return])) for attr in first]
 
 
 def copy_site(fn: ast.FunctionDef, src_name: str, what: str) -> str:
-    """Deep iff: exactly one `<v> = deepcopy(<src>)`, every `.set(` receiver is <v>, <v> is returned/stored."""
+    """Deep iff: exactly one `<v> = deepcopy(<src>)` (<v>: a local name or `self.<attr>`), every `.set(` receiver is <v>,
+    <v> is returned / stored / appended to the result."""
     is_src = lambda e: isinstance(e, ast.Name) and e.id == src_name
+    key = lambda e: e.id if isinstance(e, ast.Name) else (
+        ast.unparse(e) if self_attr(e) is not None and src_name != "self" else None)
     bound = []
     for st in ast.walk(fn):
         tgt = val = None
@@ -129,25 +723,25 @@ def copy_site(fn: ast.FunctionDef, src_name: str, what: str) -> str:
             tgt, val = st.targets[0], st.value
         elif isinstance(st, ast.AnnAssign) and st.value is not None:
             tgt, val = st.target, st.value
-        if isinstance(tgt, ast.Name) and val is not None:
+        if tgt is not None and key(tgt) is not None and val is not None:
             c = classify(val, is_src)
             if c is not None:
-                bound.append((tgt.id, c[0]))
+                bound.append((key(tgt), c[0]))
             elif isinstance(val, ast.List) and len(val.elts) == 1 and classify(val.elts[0], is_src):
-                bound.append((tgt.id, classify(val.elts[0], is_src)[0]))
+                bound.append((key(tgt), classify(val.elts[0], is_src)[0]))
     if len(bound) != 1:
         raise TranslationError(f"{what}: expected exactly one `<v> = deepcopy({src_name})`, found {bound}")
     v, mode = bound[0]
     for node in ast.walk(fn):
         if isinstance(node, ast.Call) and isinstance(node.func, ast.Attribute) and node.func.attr == "set":
             recv = node.func.value
-            if not isinstance(recv, ast.Name):
+            if key(recv) is None:
                 fail(node, f"{what}: .set on an expression")
-            if recv.id == src_name:
+            if key(recv) == src_name:
                 mode = "Alias"  # the caller's object is modified
-            elif recv.id != v:
+            elif key(recv) != v:
                 fail(node, f"{what}: .set on an unknown object")
-    used = False
+    used = "." in v                                   # bound to self.<attr>: stored
     for node in ast.walk(fn):
         if isinstance(node, ast.Return) and isinstance(node.value, ast.Name):
             if node.value.id == v:
@@ -161,9 +755,12 @@ def copy_site(fn: ast.FunctionDef, src_name: str, what: str) -> str:
                 used = True
             elif node.args[0].id == src_name:
                 mode, used = "Alias", True
-        if isinstance(node, (ast.Assign, ast.AnnAssign)) and isinstance(getattr(node, "value", None), ast.Name) \
-                and node.value.id == v:
-            used = True
+        if isinstance(node, (ast.Assign, ast.AnnAssign)) and isinstance(getattr(node, "value", None), ast.Name):
+            tgts = node.targets if isinstance(node, ast.Assign) else [node.target]
+            if node.value.id == v and any(isinstance(t, (ast.Attribute, ast.Subscript)) for t in tgts):
+                used = True                                 # stored in an attribute / container
+            elif node.value.id == src_name and any(self_attr(t) is not None for t in tgts) and src_name != "self":
+                mode, used = "Alias", True                  # the caller's own object is stored
     if not used:
         raise TranslationError(f"{what}: the copy `{v}` is neither returned nor stored")
     return mode
@@ -247,7 +844,24 @@ def _bindings(fn):
                     yield _target_names(it.optional_vars), it.context_expr
 
 
+def _stores(fn):
+    """(root name of the target, value) of every attribute / item store `x.a.b = v`, `x[k] = v`, `x.a += v`."""
+    for st in ast.walk(fn):
+        tgts = st.targets if isinstance(st, ast.Assign) else \
+            [st.target] if isinstance(st, (ast.AnnAssign, ast.AugAssign)) else []
+        val = getattr(st, "value", None)
+        if val is None:
+            continue
+        for tg in tgts:
+            for sub in (tg.elts if isinstance(tg, (ast.Tuple, ast.List)) else [tg]):
+                if isinstance(sub, (ast.Attribute, ast.Subscript)) and _root(sub) is not None:
+                    yield _root(sub), val
+
+
 def tainted_names(fn, src_name: str) -> set:
+    """Names through which an object of the caller may be reached: the parameter, locals bound from an expression that
+    mentions such a name (copier calls clean), and locals INTO which such an object was stored (`copy.pipeline =
+    self.pipeline`: the copy now holds the caller's pipeline)."""
     t = {src_name}
     changed = True
     while changed:
@@ -258,6 +872,10 @@ def tainted_names(fn, src_name: str) -> set:
                     if n not in t:
                         t.add(n)
                         changed = True
+        for root, val in _stores(fn):
+            if root not in t and _mentions(val, t):
+                t.add(root)
+                changed = True
     return t
 
 
@@ -310,13 +928,46 @@ def site_effect(fn: ast.FunctionDef, src_name: str, what: str) -> str:
 
 
 def value_copied(fn: ast.FunctionDef, what: str) -> bool:
-    """True iff every `.set(key, value)` of the site hands over a value that the site deep-copied itself."""
-    fresh = set()
+    """True iff every `.set(key, value)` of the site hands over a value that the site copied itself: deepcopy(x) /
+    np.array(x) / np.copy(x), `<ndarray>[a:b].copy()`, one element of an np.ndarray parameter, a conditional expression of
+    such values, or a local name ALL of whose bindings are such values (a named intermediate result), or an element /
+    attribute of such a name."""
+    plain: dict = {}
+    other = set()
+    for st in ast.walk(fn):
+        if isinstance(st, ast.Assign) and len(st.targets) == 1 and isinstance(st.targets[0], ast.Name):
+            plain.setdefault(st.targets[0].id, []).append(st.value)
+        elif isinstance(st, ast.AnnAssign) and isinstance(st.target, ast.Name):
+            if st.value is not None:
+                plain.setdefault(st.target.id, []).append(st.value)
     for names, val in _bindings(fn):
-        if _is_call_to(val, DEEPCOPY) and len(names) == 1:
-            fresh.add(names[0])
+        for n in names:
+            if not any(val is v for v in plain.get(n, [])):
+                other.add(n)                       # also bound by a loop / with / tuple assignment / augmented assignment
+    other |= _fn_params(fn)
     ndarray_params = {a.arg for a in fn.args.args + fn.args.kwonlyargs
                       if a.annotation is not None and ast.unparse(a.annotation) in ("np.ndarray", "numpy.ndarray")}
+
+    def fresh(v, depth=0) -> bool:
+        if depth > 4:
+            return False
+        if _is_call_to(v, DEEPCOPY) or _is_call_to(v, {"np.array", "numpy.array", "np.copy", "numpy.copy"}):
+            return True
+        if isinstance(v, ast.Call) and isinstance(v.func, ast.Attribute) and v.func.attr == "copy" \
+                and not v.args and isinstance(v.func.value, ast.Subscript) \
+                and isinstance(v.func.value.slice, ast.Slice):
+            return True                       # <ndarray>[a:b].copy(): a new 1-D array of numbers
+        if isinstance(v, ast.IfExp):
+            return fresh(v.body, depth + 1) and fresh(v.orelse, depth + 1)
+        if isinstance(v, ast.Subscript) and isinstance(v.value, ast.Name) and v.value.id in ndarray_params \
+                and isinstance(v.slice, (ast.Name, ast.Constant)) and not _rebound(fn, v.value.id):
+            return True                       # one element of a 1-D numpy array: an immutable numpy scalar
+        if isinstance(v, (ast.Subscript, ast.Attribute, ast.Name)):
+            r = _root(v)
+            if r is not None and r in plain and r not in other:
+                return all(fresh(x, depth + 1) for x in plain[r])
+        return False
+
     ok = True
     for node in ast.walk(fn):
         if isinstance(node, ast.Call) and isinstance(node.func, ast.Attribute) and node.func.attr == "set":
@@ -324,18 +975,8 @@ def value_copied(fn: ast.FunctionDef, what: str) -> bool:
             v = kws.get("value", node.args[1] if len(node.args) > 1 else None)
             if v is None:
                 fail(node, f"{what}: .set without a value")
-            if _is_call_to(v, DEEPCOPY) or _is_call_to(v, {"np.array", "numpy.array", "np.copy", "numpy.copy"}):
-                continue
-            if isinstance(v, ast.Call) and isinstance(v.func, ast.Attribute) and v.func.attr == "copy" \
-                    and not v.args and isinstance(v.func.value, ast.Subscript) \
-                    and isinstance(v.func.value.slice, ast.Slice):
-                continue                      # <ndarray>[a:b].copy(): a new 1-D array of numbers
-            if isinstance(v, (ast.Subscript, ast.Attribute, ast.Name)) and _root(v) in fresh:
-                continue
-            if isinstance(v, ast.Subscript) and isinstance(v.value, ast.Name) and v.value.id in ndarray_params \
-                    and isinstance(v.slice, (ast.Name, ast.Constant)):
-                continue                      # one element of a 1-D numpy array: an immutable numpy scalar
-            ok = False
+            if not fresh(v):
+                ok = False
     return ok
 
 
@@ -358,12 +999,15 @@ def use_site(fn: ast.FunctionDef, copier: str, what: str) -> str:
     mode = "Deep"
     for c in calls:
         kws = {k.arg: k.value for k in c.keywords}
-        p = kws.get("processor")
+        p = kws.get("processor", c.args[0] if c.args and not isinstance(c.args[0], ast.Starred) else None)
+        if isinstance(p, ast.Call) and ast.unparse(p.func).split(".")[-1] == copier:
+            continue                              # run_pipeline(processor=<copier>(...)): the copy is run directly
         if p is None or not isinstance(p, ast.Name):
             fail(c, f"{what}: run_pipeline must get processor=<name>")
         # the name must be bound from the copier and from nothing else
-        others = [st for st in ast.walk(fn) if isinstance(st, ast.Assign) and any(
-            isinstance(t, ast.Name) and t.id == p.id for t in st.targets) and not (
+        others = [st for st in ast.walk(fn) if isinstance(st, (ast.Assign, ast.AnnAssign)) and any(
+            p.id in _target_names(t) for t in (st.targets if isinstance(st, ast.Assign) else [st.target]))
+            and st.value is not None and not (
             isinstance(st.value, ast.Call) and ast.unparse(st.value.func).split(".")[-1] == copier)]
         if p.id not in bound or others:
             mode = "Alias"
@@ -405,6 +1049,14 @@ def seed_kind(expr, fn, what: str, _depth: int = 0) -> str:
         plain = [st for st in ast.walk(fn) if isinstance(st, (ast.Assign, ast.AnnAssign)) and any(
             isinstance(t, ast.Name) and t.id == expr.id for t in (st.targets if isinstance(st, ast.Assign) else [st.target]))]
         if len(vals) == 1 and len(plain) == 1:
+            return seed_kind(vals[0], fn, what, _depth + 1)
+    if isinstance(expr, ast.Name) and expr.id not in _fn_params(fn) and not _rebound(fn, expr.id) and _depth < 3:
+        # a constant moved to module level: exactly one module-level assignment
+        tree = getattr(fn, "_tree", None)
+        vals = [st.value for st in (tree.body if tree is not None else []) if (
+            isinstance(st, ast.Assign) and any(expr.id in _target_names(t) for t in st.targets)) or (
+            isinstance(st, ast.AnnAssign) and st.value is not None and _target_names(st.target) == [expr.id])]
+        if len(vals) == 1 and isinstance(vals[0], ast.Constant):
             return seed_kind(vals[0], fn, what, _depth + 1)
     fail(expr, f"{what}: unrecognised seed expression")
 
@@ -552,14 +1204,36 @@ def _agree(vals, what):
     return vals.pop()
 
 
+def _single_binding(fn, expr):
+    """The value of a local name bound exactly once by a plain assignment (a named intermediate result); else expr."""
+    for _ in range(3):
+        if not (isinstance(expr, ast.Name) and expr.id not in _fn_params(fn)):
+            break
+        vals = [val for names, val in _bindings(fn) if expr.id in names]
+        plain = [st for st in ast.walk(fn) if isinstance(st, (ast.Assign, ast.AnnAssign)) and st.value is not None and any(
+            isinstance(t, ast.Name) and t.id == expr.id for t in (st.targets if isinstance(st, ast.Assign) else [st.target]))]
+        if len(vals) != 1 or len(plain) != 1:
+            break
+        expr = plain[0].value
+    return expr
+
+
+def _as_dict(expr):
+    """`dict(k=v, ...)` as the literal `{"k": v, ...}`."""
+    if _is_call_to(expr, {"dict"}) and not expr.args and all(k.arg is not None for k in expr.keywords):
+        return ast.copy_location(ast.Dict(keys=[ast.Constant(value=k.arg) for k in expr.keywords],
+                                          values=[k.value for k in expr.keywords]), expr)
+    return expr
+
+
 def seeding_rows(obs, dsk, fit, cal) -> list:
     rows = []
     # ---- observation, loop path: run_pipelines -> [ _run_single_pipeline(el) for el in parameters ] -> run_pipeline
     what = "Observation.run_pipelines (loop)"
     ocls = _class(obs, "Observation")
     users = _self_seed_is_users(ocls, what)
-    f_single = find_func(obs, "_run_single_pipeline", "Observation")
-    f_runs = find_func(obs, "run_pipelines", "Observation")
+    f_single = nfind(obs, "_run_single_pipeline", "Observation")
+    f_runs = nfind(obs, "run_pipelines", "Observation")
     inner = calls_in_context(f_single, _is_run_pipeline, what)
     outer = calls_in_context(f_runs, lambda c: ast.unparse(c.func).split(".")[-1] == "_run_single_pipeline", what)
     if not inner or not outer:
@@ -582,9 +1256,9 @@ def seeding_rows(obs, dsk, fit, cal) -> list:
     # ---- observation, dask path: the seed is handed down run_pipelines -> run_pipelines_with_dask -> apply_ufunc kwargs
     #      -> _run_pipelines_tuple_to_array -> _run_pipelines_array_to_datatree -> run_pipeline
     what = "observation_dask"
-    f_arr = find_func(dsk, "_run_pipelines_array_to_datatree")
-    f_tup = find_func(dsk, "_run_pipelines_tuple_to_array")
-    f_dask = find_func(dsk, "run_pipelines_with_dask")
+    f_arr = nfind(dsk, "_run_pipelines_array_to_datatree")
+    f_tup = nfind(dsk, "_run_pipelines_tuple_to_array")
+    f_dask = nfind(dsk, "run_pipelines_with_dask")
 
     def passed(fn, callee, where):
         """kinds with which fn hands pipeline_seed to callee (direct call, or kwargs={...} of a call that gets the callee)"""
@@ -597,7 +1271,7 @@ def seeding_rows(obs, dsk, fit, cal) -> list:
             if ast.unparse(c.func).split(".")[-1] == callee:
                 out.append(seed_kind(_kw(c, "pipeline_seed"), fn, where))
             else:
-                kwargs = _kw(c, "kwargs")
+                kwargs = _as_dict(_single_binding(fn, _kw(c, "kwargs")))
                 if not isinstance(kwargs, ast.Dict) and _kw(c, "pipeline_seed") is not None:
                     out.append(seed_kind(_kw(c, "pipeline_seed"), fn, where))     # functools.partial(callee, pipeline_seed=..)
                     continue
@@ -646,7 +1320,7 @@ def seeding_rows(obs, dsk, fit, cal) -> list:
     users_fit = _self_seed_is_users(fcls, "ModelFittingDataTree") and _self_seed_is_users(ccls, "Calibration") and handed
     for name in ("fitness", "_apply_parameters"):
         what = f"ModelFittingDataTree.{name}"
-        fn = find_func(fit, name, "ModelFittingDataTree")
+        fn = nfind(fit, name, "ModelFittingDataTree")
         res = []
         for c, stack in calls_in_context(fn, _is_run_pipeline, what):
             kind = seed_kind(_kw(c, "pipeline_seed"), fn, what)
@@ -677,7 +1351,19 @@ def pickle_policy(proc_tree, grp_tree, proc_fields) -> tuple:
         return procs, [("models", "Deep")]
     if len(get) != 1 or len(sett) != 1:
         raise TranslationError("ModelGroup: __getstate__ and __setstate__ must both be defined (once)")
-    gb = body_no_doc(get[0])
+    gfn = nfind(grp_tree, "__getstate__", "ModelGroup", loops=False)
+    gb = body_no_doc(gfn)
+    # `return {...}` / `return dict(k=...)`, possibly through one named intermediate (`state = {...}; return state`)
+    if len(gb) == 2 and isinstance(gb[0], (ast.Assign, ast.AnnAssign)) and isinstance(gb[1], ast.Return) \
+            and isinstance(gb[1].value, ast.Name) and _target_names(
+                gb[0].targets[0] if isinstance(gb[0], ast.Assign) and len(gb[0].targets) == 1 else
+                getattr(gb[0], "target", ast.Pass())) == [gb[1].value.id] and gb[0].value is not None:
+        gb = [ast.copy_location(ast.Return(value=gb[0].value), gb[1])]
+    if len(gb) == 1 and isinstance(gb[0], ast.Return) and _is_call_to(gb[0].value, {"dict"}) and not gb[0].value.args \
+            and all(k.arg is not None for k in gb[0].value.keywords):
+        gb = [ast.copy_location(ast.Return(value=ast.Dict(
+            keys=[ast.Constant(value=k.arg) for k in gb[0].value.keywords],
+            values=[k.value for k in gb[0].value.keywords])), gb[0])]
     if not (len(gb) == 1 and isinstance(gb[0], ast.Return) and isinstance(gb[0].value, ast.Dict)):
         fail(get[0], "ModelGroup.__getstate__ must be `return {...}`")
     key = None
@@ -695,7 +1381,7 @@ def pickle_policy(proc_tree, grp_tree, proc_fields) -> tuple:
         return procs, [("models", "Drop")]
     state = sett[0].args.args[1].arg if len(sett[0].args.args) > 1 else None
     mode = "Drop"
-    for st in body_no_doc(sett[0]):
+    for st in body_no_doc(nfind(grp_tree, "__setstate__", "ModelGroup", loops=False)):
         tgt = val = None
         if isinstance(st, ast.Assign) and len(st.targets) == 1:
             tgt, val = st.targets[0], st.value
@@ -730,43 +1416,44 @@ def scan_hooks(repo: Path):
 
 
 def extract(repo: Path) -> dict:
-    proc = parse(repo, "pyxel/pipelines/processor.py")
-    grp = parse(repo, "pyxel/pipelines/model_group.py")
-    misc = parse(repo, "pyxel/observation/misc.py")
-    obs = parse(repo, "pyxel/observation/observation.py")
-    dsk = parse(repo, "pyxel/observation/observation_dask.py")
-    fit = parse(repo, "pyxel/calibration/fitting_datatree.py")
-    cal = parse(repo, "pyxel/calibration/calibration.py")
+    _SRC["rels"].clear()
+    proc = parse_n(repo, "pyxel/pipelines/processor.py")
+    grp = parse_n(repo, "pyxel/pipelines/model_group.py")
+    misc = parse_n(repo, "pyxel/observation/misc.py")
+    obs = parse_n(repo, "pyxel/observation/observation.py")
+    dsk = parse_n(repo, "pyxel/observation/observation_dask.py")
+    fit = parse_n(repo, "pyxel/calibration/fitting_datatree.py")
+    cal = parse_n(repo, "pyxel/calibration/calibration.py")
     scan_hooks(repo)
     pf = custom_copy(proc, "Processor")
     gf = custom_copy(grp, "ModelGroup")
     sites = [
-        ("create_new_processor", copy_site(find_func(misc, "create_new_processor"), "processor", "create_new_processor")),
-        ("Processor.replace", copy_site(find_func(proc, "replace", "Processor"), "self", "Processor.replace")),
-        ("update_processor", copy_site(find_func(fit, "update_processor", "ModelFittingDataTree"), "processor",
+        ("create_new_processor", copy_site(nfind(misc, "create_new_processor"), "processor", "create_new_processor")),
+        ("Processor.replace", copy_site(nfind(proc, "replace", "Processor"), "self", "Processor.replace")),
+        ("update_processor", copy_site(nfind(fit, "update_processor", "ModelFittingDataTree"), "processor",
                                        "update_processor")),
-        ("build_processors", copy_site(find_func(fit, "build_processors"), "processor", "build_processors")),
-        ("ModelFittingDataTree.__init__", copy_site(find_func(fit, "__init__", "ModelFittingDataTree"), "processor",
+        ("build_processors", copy_site(nfind(fit, "build_processors"), "processor", "build_processors")),
+        ("ModelFittingDataTree.__init__", copy_site(nfind(fit, "__init__", "ModelFittingDataTree"), "processor",
                                                     "ModelFittingDataTree.__init__")),
-        ("Observation._run_single_pipeline", use_site(find_func(obs, "_run_single_pipeline", "Observation"),
+        ("Observation._run_single_pipeline", use_site(nfind(obs, "_run_single_pipeline", "Observation"),
                                                       "create_new_processor", "_run_single_pipeline")),
-        ("dask._run_pipelines_array_to_datatree", use_site(find_func(dsk, "_run_pipelines_array_to_datatree"),
+        ("dask._run_pipelines_array_to_datatree", use_site(nfind(dsk, "_run_pipelines_array_to_datatree"),
                                                            "replace", "_run_pipelines_array_to_datatree")),
-        ("ModelFittingDataTree.fitness", use_site(find_func(fit, "fitness", "ModelFittingDataTree"),
+        ("ModelFittingDataTree.fitness", use_site(nfind(fit, "fitness", "ModelFittingDataTree"),
                                                   "update_processor", "fitness")),
-        ("ModelFittingDataTree._apply_parameters", use_site(find_func(fit, "_apply_parameters", "ModelFittingDataTree"),
+        ("ModelFittingDataTree._apply_parameters", use_site(nfind(fit, "_apply_parameters", "ModelFittingDataTree"),
                                                             "update_processor", "_apply_parameters")),
     ]
     copy_fns = [
-        ("create_new_processor", find_func(misc, "create_new_processor"), "processor"),
-        ("Processor.replace", find_func(proc, "replace", "Processor"), "self"),
-        ("update_processor", find_func(fit, "update_processor", "ModelFittingDataTree"), "processor"),
-        ("build_processors", find_func(fit, "build_processors"), "processor"),
-        ("ModelFittingDataTree.__init__", find_func(fit, "__init__", "ModelFittingDataTree"), "processor"),
+        ("create_new_processor", nfind(misc, "create_new_processor"), "processor"),
+        ("Processor.replace", nfind(proc, "replace", "Processor"), "self"),
+        ("update_processor", nfind(fit, "update_processor", "ModelFittingDataTree"), "processor"),
+        ("build_processors", nfind(fit, "build_processors"), "processor"),
+        ("ModelFittingDataTree.__init__", nfind(fit, "__init__", "ModelFittingDataTree"), "processor"),
     ]
     effects = [(name, site_effect(fn, src, name)) for name, fn, src in copy_fns + [
-        ("Observation._run_single_pipeline", find_func(obs, "_run_single_pipeline", "Observation"), "processor"),
-        ("dask._run_pipelines_array_to_datatree", find_func(dsk, "_run_pipelines_array_to_datatree"), "processor"),
+        ("Observation._run_single_pipeline", nfind(obs, "_run_single_pipeline", "Observation"), "processor"),
+        ("dask._run_pipelines_array_to_datatree", nfind(dsk, "_run_pipelines_array_to_datatree"), "processor"),
     ]]
     vcopy = [(name, value_copied(fn, name)) for name, fn, src in copy_fns]
     ppf, pgf = pickle_policy(proc, grp, pf)
